@@ -151,7 +151,7 @@ impl A {
                 let _ = write!(s, "C{:?}", self.val.as_deref().unwrap_or(""));
             }
             K::Pi => {
-                let _ = write!(s, "P{}{:?}", self.name, self.val);
+                let _ = write!(s, "P{{{}}}{}{:?}", self.ns, self.name, self.val);
             }
             K::Attr => {
                 let _ = write!(s, "@{{{}}}{}={:?}", self.ns, self.name, self.val.as_deref().unwrap_or(""));
@@ -438,8 +438,12 @@ pub fn read_node(xot: &Xot, n: Node) -> A {
         Value::Text(t) => A::text(t.get()),
         Value::Comment(c) => A::comment(c.get()),
         Value::ProcessingInstruction(p) => {
-            let (l, _ns) = xot.name_ns_str(p.target());
-            A::pi(l, p.data())
+            // a PI target is a plain name; should the implementation ever intern it in a namespace, the
+            // namespace is read back and shows up as a difference
+            let (l, ns) = xot.name_ns_str(p.target());
+            let mut a = A::pi(l, p.data());
+            a.ns = ns.to_string();
+            a
         }
         Value::Attribute(at) => {
             let (l, ns) = xot.name_ns_str(at.name());
